@@ -14,6 +14,7 @@ from ..run import Outcome
 
 ID = "C14"
 BUDGET = {"quick": 16000, "thorough": 160000}
+FUZZ = {"thorough": 4000}  # coverage-guided stage: libFuzzer runs per worker (x16), see vk/fuzz.py
 MODELS = ["IC", "IAC", "from_point", "from_alpha", "name_PlackettLuce", "short_name_PlackettLuce",
           "name_BradleyTerry", "name_BradleyTerry_MCMC", "name_Cumulative", "slate_PlackettLuce",
           "slate_BradleyTerry", "slate_BradleyTerry_MCMC", "AlternatingCrossover", "CambridgeSampler",
@@ -40,7 +41,10 @@ ASSUMPTIONS = [
 @st.composite
 def case(draw):
     model = draw(st.sampled_from(MODELS))
-    c = {"model": model, "N": draw(st.one_of(st.integers(1, 6), st.integers(1, 60))), "seed": draw(S.seed)}
+    kN = draw(st.integers(0, 13))
+    # mostly small N (where apportionment and short chains are delicate), sometimes large
+    N = draw(st.sampled_from([97, 250, 1000])) if kN == 0 else draw(st.integers(1, 6 if kN < 4 else 60))
+    c = {"model": model, "N": N, "seed": draw(S.seed)}
     if model in ("IC", "IAC", "from_point", "from_alpha", "OneDimSpatial", "Spatial", "ClusteredSpatial"):
         c["cands"] = draw(S.cand_names(1, 5, odd=True))
         n = len(c["cands"])
